@@ -1084,9 +1084,9 @@ class Task:
                     v = o.st.locals.get(name)
                     if isinstance(v, V) and name not in st.locals:
                         self.dry_local_sorts.setdefault(name, v.sort)
-                    # a local that is None before the loop and receives a value of another sort inside it (x = None; for ...: x = obj)
-                    if isinstance(v, V) and v.sort != NONE and isinstance(st.locals.get(name), V) and st.locals[name].sort == NONE:
-                        self.dry_none_widen.setdefault(name, v.sort)
+                    # a local whose sort before the loop differs from what an iteration leaves in it (x = None; for ...: x = obj / n = 0; n = n * 0.5)
+                    if isinstance(v, V) and isinstance(st.locals.get(name), V) and st.locals[name].sort != v.sort:
+                        self.dry_none_widen.setdefault(name, set()).add(v.sort)
             return set(self.collecting)
         finally:
             if outer_collecting is not None:
@@ -1107,10 +1107,10 @@ class Task:
         for name in assigned:
             if name in ls:
                 st.locals[name] = parse_sort(ls[name]).fresh(f"loop.{name}")
-            elif name in st.locals and isinstance(st.locals[name], V) and st.locals[name].sort == NONE and name in getattr(self, "dry_none_widen", {}):
-                ws = self.dry_none_widen[name]       # None before the loop, a value inside it: afterwards it is either (nullable object / Optional value)
-                ws = ws if isinstance(ws, (RefSort, OptSort)) else OptSort(ws)
-                st.locals[name] = ws.fresh(f"loop.{name}")
+            elif name in st.locals and isinstance(st.locals[name], V) and name in getattr(self, "dry_none_widen", {}):
+                # the loop changes the sort of this local: continue with the join of the sorts (None + T -> nullable object / Optional[T],
+                # Int + Real -> Real, [] + Seq[T] -> Seq[T]); anything else is outside the subset
+                st.locals[name] = _join_sorts({st.locals[name].sort} | set(self.dry_none_widen[name]), name).fresh(f"loop.{name}")
             elif name in st.locals and isinstance(st.locals[name], V):
                 st.locals[name] = st.locals[name].sort.fresh(f"loop.{name}")
         for a, base in sorted(attrs, key=str):
@@ -2469,6 +2469,28 @@ ISINSTANCE = z3.Function("isinstance", Ref, Ref, z3.BoolSort())
 TYPE_OF = z3.Function("type_of", Ref, Ref)
 ISSUBCLASS = z3.Function("issubclass", Ref, Ref, z3.BoolSort())
 ROUND = z3.Function("py_round", z3.RealSort(), z3.IntSort(), z3.RealSort())
+
+
+def _join_sorts(sorts, name):
+    has_none = NONE in sorts
+    rest = [x for x in sorts if x != NONE]
+    inner = []
+    for x in rest:
+        if isinstance(x, OptSort):
+            has_none = True
+            x = x.inner
+        if x not in inner:
+            inner.append(x)
+    if len(inner) == 2 and set(inner) == {INT, REAL}:
+        inner = [REAL]
+    if len(inner) == 2 and all(isinstance(x, SeqSort) for x in inner) and any(x.elem == NONE for x in inner):
+        inner = [x for x in inner if x.elem != NONE]
+    if len(inner) != 1:
+        raise Unsupported(f"loop-carried local {name} takes values of incompatible sorts {sorts}")
+    j = inner[0]
+    if has_none and not isinstance(j, RefSort):
+        j = OptSort(j)
+    return j
 
 
 def _base_name(attr_node):
